@@ -70,6 +70,18 @@ def run(chk, tier, seed):
         Bs += [i for i, _ in rng.sample(roots, 4 if tier == "quick" else 12)]
         for b in dict.fromkeys(Bs):
             add("pair", b, 0, files[a], {"a": a})
+    # files as EARLIER builds of the library wrote them (library format 0 and 1: older schema encodings), plain and
+    # bzip2-compressed: the uncompressed ones are compared with load_plain in Coq (which parses the schema section at the
+    # file's format version); a compressed file must behave exactly like its uncompressed twin
+    old_as = list(files)[:30 if tier == "quick" else 150]
+    ol = ["o%d_%d_%d ty_oldfile %d %d %d 0 0" % (a, fmt, comp, a, fmt, comp) for a in old_as for fmt in (0, 1) for comp in (0, 1)]
+    oobs = C.run_harness(binary, ol, timeout=600)
+    for a in old_as:
+        for fmt in (0, 1):
+            for comp in (0, 1):
+                o = oobs.get("o%d_%d_%d" % (a, fmt, comp), "")
+                if o.startswith("OK "):
+                    add("pair", a, 0, o.split(" ")[1], {"a": a, "old": (fmt, comp)})
     # header corruption on schema-less files of a few types
     hdr_roots = prims[:3] + [i for i, _ in rng.sample(roots, 4)]
     lines_h = ["h%d ty_save %d noschema 0 0" % (a, a) for a in hdr_roots]
@@ -100,12 +112,21 @@ def run(chk, tier, seed):
         if t is None:
             chk.violations.append(("implementation aborted/hung on a load: " + o[:100], {"input": D.describe(U, m), "harness_line": lines2[m["n"] - 1][:3000]}))
             continue
+        if m["kind"] == "pair" and m.get("old") and m["old"][1] == 1:
+            # compressed old-format file: same outcome as the uncompressed twin
+            twin = [c for c, mm in meta.items() if mm.get("old") == (m["old"][0], 0) and mm.get("a") == m["a"] and mm["kind"] == "pair"]
+            if twin and obs2.get(twin[0], "").split(" ")[0:1] + obs2.get(twin[0], "").split(" ")[2:] != o.split(" ")[0:1] + o.split(" ")[2:]:
+                chk.violations.append(("a bzip2-compressed file in library format %d of %s loads differently from the same file uncompressed: %s vs %s" % (
+                    m["old"][0], TG.rust_ty(r["ty"]), o[:80], obs2.get(twin[0], "")[:80]), {"harness_line": lines2[m["n"] - 1][:3000], "observed": o[:300], "uncompressed": obs2.get(twin[0], "")[:300]}))
+            chk.distinct.add(("oldfmt", m["old"], D.shape_key(r["ty"])))
+            continue
         if m["kind"] == "pair":
             sA, sB = schemas.get(m["a"]), schemas.get(m["root"])
             if not sA or not sB:
                 continue
             terms.append((m["n"], "agree_xload 0 %s %s %s %s" % (tB, D.hexlit(sB), D.hexlit(m["file"]), t)))
-            oterms.append((m["n"], "xload_oracle %s %s %s && xload_not_misread %s %s %s" % (D.hexlit(sA), D.hexlit(sB), t, tB, D.hexlit(m["file"]), t)))
+            if not m.get("old"):     # (the oracle locates the payload behind a format-2 schema section)
+                oterms.append((m["n"], "xload_oracle %s %s %s && xload_not_misread %s %s %s" % (D.hexlit(sA), D.hexlit(sB), t, tB, D.hexlit(m["file"]), t)))
             chk.distinct.add(("pair", D.shape_key(U["roots"][m["a"]]["ty"]), D.shape_key(r["ty"])))
         else:
             fb0 = bytes.fromhex(m["file"].replace("-", ""))
